@@ -47,6 +47,32 @@ def parser_obj(ip, cls=ClientFrameParser, frame_class=Frame, name='parser'):
 class Parse(ProducerContract):
     coroutine = True
 
+    def site_keys(self, sites):
+        """the yields of parse() by what is awaited / handed on (arms of the length and payload branches may be swapped)"""
+        out, idents = [], 0
+        for k, src, stmt in sites:
+            if 'read_until(' in src:
+                n = 0
+            elif 'unpack16' in stmt:
+                n = 3
+            elif 'unpack64' in stmt:
+                n = 4
+            elif 'read_text(' in src:
+                n = 6
+            elif src.replace(' ', '') == 'self.read(4)':
+                n = 5
+            elif src.replace(' ', '') == 'self.read(2)':
+                n = 2
+            elif src.startswith('self.read('):
+                n = 7
+            elif src.isidentifier():
+                n = 1 if idents == 0 else 8
+                idents += 1
+            else:
+                n = k
+            out.append(n)
+        return out
+
     def variants(self):
         return ['%s-%s' % (c, f) for c in ('client', 'base') for f in ('plain', 'compressed')]
 
